@@ -874,6 +874,10 @@ where
     }
 }
 
+#[cfg(feature = "verif-hooks")]
+#[path = "raft_verif.rs"]
+mod verif;
+
 #[cfg(test)]
 #[path = "raft_test/leader_change_tests.rs"]
 mod leader_change_tests;
